@@ -36,6 +36,7 @@ def run(repo, run, tier):
     # 'looking the trajectory up at a time returns the dense solution there': the store the lookup bisects stays sorted for every method (Richardson sub-steps included)
     from .c06 import piece_store_single_writer
     piece_store_single_writer(repo, run, rule_id="C19.10")
+    whole_run_slice(repo, run, fn, idx)
 
 
 
@@ -322,3 +323,173 @@ def length(repo, run):
         run.judged(rid, "%s returns %s" % (q, src(r[0].value) if r else None), ok=ok)
         if not ok:
             run.report("C19.6", DS, g, "the trimmed view %s is not %s" % (q, want))
+
+
+def whole_run_slice(repo, run, fn, idx):
+    """'a time slice spanning the whole run returns the whole run': evaluated in the abstract world of a slice whose stop bound lies strictly beyond the last
+    recorded time and whose start bound lies before the first.  There the clamped bisection returns the last index N = counter for the stop and 0 for the
+    start, a comparison `t[N] == stop` is false, and the rows returned must be [0 : N + 1] on every path (a stop of None slices to the end as well)."""
+    import itertools
+    rid = run.rule("C19.11", "slice branch, whole-run bounds (start before the first sample, stop beyond the last): on every path the rows returned are [0 : counter + 1]", floor=1)
+    br = _branch(fn, lambda t: isinstance(t, ast.Call) and fname(t) == "isinstance" and len(t.args) == 2 and src(t.args[0]) == idx and src(t.args[1]) == "slice")
+    if br is None:
+        raise AnalysisError("__getitem__: slice branch not found")
+    N = Poly.atom("N")
+
+    class Unknown(Exception):
+        pass
+
+    def is_search(v):
+        return isinstance(v, ast.Call) and (dotted(v.func) or "").split(".")[-1].startswith("search_bisection")
+
+    def ev(v, env):
+        if isinstance(v, ast.Constant) and isinstance(v.value, int) and not isinstance(v.value, bool):
+            return Poly.const(v.value)
+        if isinstance(v, ast.Constant) and v.value is None:
+            return None
+        if isinstance(v, ast.Name) and v.id in env:
+            return env[v.id]
+        if is_search(v) and len(v.args) == 2:
+            which = [a for a in ("start", "stop") if "%s.%s" % (idx, a) in src(v.args[1])]
+            if which == ["stop"]:
+                return N
+            if which == ["start"]:
+                return Poly.const(0)
+            raise Unknown(src(v))
+        if isinstance(v, ast.Call) and isinstance(v.func, ast.Name) and ("%fn:" + v.func.id) in env and len(v.args) == 1 and not v.keywords:
+            # a local helper `def pos(bound): return search_bisection(<times>, <bound>)` called with one of the slice bounds
+            h = env["%fn:" + v.func.id]
+            hp = [a.arg for a in h.args.args]
+            hr = [st for st in h.body if isinstance(st, ast.Return)]
+            body_ok = len(hp) == 1 and len(hr) == 1 and all(isinstance(st, (ast.Return, ast.Expr)) for st in h.body) and is_search(hr[0].value) and len(hr[0].value.args) == 2 and \
+                any(isinstance(x, ast.Name) and x.id == hp[0] for x in ast.walk(hr[0].value.args[1]))
+            if body_ok:
+                which = [a for a in ("start", "stop") if "%s.%s" % (idx, a) in src(v.args[0])]
+                if which == ["stop"]:
+                    return N
+                if which == ["start"]:
+                    return Poly.const(0)
+            raise Unknown(src(v))
+        if src(v) in ("self.counter", "len(self) - 1", "len(self.t) - 1"):
+            return N
+        if src(v) in ("len(self)", "len(self.t)", "self.counter + 1"):
+            return N + Poly.const(1)
+        if isinstance(v, ast.BinOp) and isinstance(v.op, (ast.Add, ast.Sub)):
+            a, b = ev(v.left, env), ev(v.right, env)
+            if a is None or b is None:
+                raise Unknown(src(v))
+            return a + b if isinstance(v.op, ast.Add) else a - b
+        if isinstance(v, ast.Call) and fname(v) in ("min", "max") and len(v.args) == 2:
+            a, b = ev(v.args[0], env), ev(v.args[1], env)
+            if a is not None and b is not None and a == b:
+                return a
+            d = (a - b) if a is not None and b is not None else None
+            if d is not None and d.is_const():
+                lo, hi = (a, b) if d.const_value() < 0 else (b, a)
+                return lo if fname(v) == "min" else hi
+            raise Unknown(src(v))
+        if isinstance(v, ast.Call) and fname(v) == "int" and len(v.args) == 1:
+            return ev(v.args[0], env)
+        if isinstance(v, ast.Attribute) and src(v) == "%s.step" % idx:
+            return Poly.atom("STEP")
+        if isinstance(v, ast.IfExp):
+            t = test(v.test, env)
+            if t is None:
+                raise Unknown(src(v))
+            return ev(v.body if t else v.orelse, env)
+        raise Unknown(src(v))
+
+    def test(t, env):
+        """truth of a test in the whole-run world given the None-ness chosen for the slice fields (env['?stop'] etc.); None = undecided (both branches explored)"""
+        if isinstance(t, ast.Compare) and len(t.ops) == 1 and isinstance(t.ops[0], (ast.Is, ast.IsNot)) and isinstance(t.comparators[0], ast.Constant) and t.comparators[0].value is None:
+            fld = src(t.left)
+            for a in ("start", "stop", "step"):
+                if fld == "%s.%s" % (idx, a):
+                    isnone = env["?" + a]
+                    return isnone if isinstance(t.ops[0], ast.Is) else not isnone
+        if isinstance(t, ast.UnaryOp) and isinstance(t.op, ast.Not):
+            r = test(t.operand, env)
+            return None if r is None else not r
+        if isinstance(t, ast.Compare) and len(t.ops) == 1 and isinstance(t.ops[0], (ast.Eq, ast.NotEq)):
+            txt = src(t)
+            if "%s.stop" % idx in txt or "%s.start" % idx in txt:
+                # a recorded time never EQUALS a bound that lies strictly outside the run
+                return isinstance(t.ops[0], ast.NotEq)
+        return None
+
+    def paths(stmts, env):
+        """yield the environments at the Return statements reachable through `stmts`"""
+        if not stmts:
+            yield ("fall", env)
+            return
+        st, rest = stmts[0], stmts[1:]
+        if isinstance(st, ast.Return):
+            yield ("ret", env, st)
+            return
+        if isinstance(st, ast.Assign) and len(st.targets) == 1 and isinstance(st.targets[0], ast.Name):
+            e2 = dict(env)
+            try:
+                e2[st.targets[0].id] = ev(st.value, env)
+            except Unknown:
+                e2[st.targets[0].id] = "?"
+            yield from paths(rest, e2)
+            return
+        if isinstance(st, ast.AugAssign) and isinstance(st.target, ast.Name) and isinstance(st.op, (ast.Add, ast.Sub)):
+            e2 = dict(env)
+            try:
+                cur, d = env.get(st.target.id), ev(st.value, env)
+                e2[st.target.id] = (cur + d if isinstance(st.op, ast.Add) else cur - d) if isinstance(cur, Poly) and isinstance(d, Poly) else "?"
+            except Unknown:
+                e2[st.target.id] = "?"
+            yield from paths(rest, e2)
+            return
+        if isinstance(st, ast.If):
+            t = test(st.test, env)
+            for val, body in ((True, st.body), (False, st.orelse)):
+                if t is None or t == val:
+                    for r in paths(body, dict(env, **{"!" + src(st.test)[:60]: val} if t is None else {})):
+                        if r[0] == "fall":
+                            yield from paths(rest, r[1])
+                        else:
+                            yield r
+            return
+        if isinstance(st, (ast.Expr, ast.Pass)):
+            yield from paths(rest, env)
+            return
+        if isinstance(st, ast.FunctionDef):
+            yield from paths(rest, dict(env, **{"%fn:" + st.name: st}))
+            return
+        raise AnalysisError("__getitem__ slice branch: statement outside the path interpreter: %s" % src(st)[:80])
+
+    n = 0
+    for sn, pn, en in itertools.product((False, True), repeat=3):
+        env0 = {"?start": sn, "?stop": pn, "?step": en}
+        for r in paths(br.body, env0):
+            if r[0] != "ret":
+                continue
+            env, ret = r[1], r[2]
+            subs = [x for x in ast.walk(ret.value) if isinstance(x, ast.Subscript) and isinstance(x.slice, ast.Slice) and src(x.value) in ("self.t", "self.y")]
+            if not subs:
+                raise AnalysisError("__getitem__ slice branch: the returned rows are not slices of self.t / self.y")
+            for sub in subs:
+                n += 1
+                sl = sub.slice
+                try:
+                    lo = ev(sl.lower, env) if sl.lower is not None else None
+                    hi = ev(sl.upper, env) if sl.upper is not None else None
+                except Unknown as e:
+                    raise AnalysisError("__getitem__ slice branch: bound outside the interpreter: %s" % e)
+                if lo == "?" or hi == "?":
+                    raise AnalysisError("__getitem__ slice branch: a bound was computed by a form outside the interpreter")
+                ok = (lo is None or lo == Poly.const(0)) and (hi is None or hi == N + Poly.const(1))
+                und = [k[1:] for k, v in env.items() if k.startswith("!")]
+                run.judged(rid, "%s rows [%s : %s] with start %s, stop %s%s" % (src(sub.value), lo, hi, "None" if sn else "before the run", "None" if pn else "beyond the run",
+                                                                                 " (undecided tests: %s)" % und if und else ""), ok=ok)
+                if not ok:
+                    run.report("C19.11", DS, sub, "for a time slice that spans the whole run (start %s, stop %s%s) the rows returned are [%s : %s], not [0 : counter + 1]: the clamped bisection "
+                                                  "returns the last index for a stop beyond the run, and that sample belongs to the slice" % (
+                                                      "None" if sn else "before the first sample", "None" if pn else "beyond the last sample",
+                                                      "; on the path %s" % {k[1:]: v for k, v in env.items() if k.startswith("!")} if und else "", lo, hi),
+                               text="whole-run slice of %s" % src(sub.value))
+    if n == 0:
+        raise AnalysisError("__getitem__ slice branch: no return found")
